@@ -387,6 +387,7 @@ def h_independence(c, pkg, i, j):
 
 def r_independence(inputs, params, obligation):
     """concrete: B alone in a fresh interpreter process vs. after A in another fresh process"""
+    import os
     import subprocess
     import sys
     A, B = SOURCES[params['i']], SOURCES[params['j']]
@@ -412,7 +413,10 @@ print(repr(out))
 '''
     res = []
     for flag in ('0', '1'):
-        p = subprocess.run([sys.executable, '-c', prog, A, B, flag], capture_output=True, text=True, timeout=60)
+        env = dict(os.environ)
+        if env.get('VERIF_REPO'):
+            env['PYTHONPATH'] = env['VERIF_REPO']
+        p = subprocess.run([sys.executable, '-c', prog, A, B, flag], capture_output=True, text=True, timeout=60, env=env)
         res.append(p.stdout.strip())
     return {'reproduced': res[0] != res[1], 'first': A, 'second': B, 'alone': res[0][:400], 'after': res[1][:400]}
 
